@@ -10,6 +10,7 @@
 import re
 
 from sqlparse import tokens as T
+from sqlparse.exceptions import SQLParseError
 from sqlparse.utils import imt, remove_quotes
 
 
@@ -403,7 +404,13 @@ class TokenList(Token):
             if token.ttype in types:
                 return remove_quotes(token.value)
             elif isinstance(token, (Identifier, Function)):
-                return token.get_real_name() if real_name else token.get_name()
+                try:
+                    if real_name:
+                        return token.get_real_name()
+                    return token.get_name()
+                except RecursionError as err:
+                    raise SQLParseError(
+                        'Maximum recursion depth exceeded') from err
 
 
 class Statement(TokenList):
